@@ -981,7 +981,9 @@ func runC07(r *Run) {
 				"OR", "or", "IN", "in", "AS", "as", "ALL", "all", "ANY", "any", "NOT", "not", "IS", "is", "EMPTY", "empty", "AND", "and", "MATCHES", "matches", "CONTAINS", "contains", "Or", "nOt",
 				"18446744073709551557", "9223372036854775808", "99999999999999999999999", "4294967296", "00000000000000000000001",
 				"unit\u00a0price", "a\u2003b", "x\u200by", "\ufeffk", "a\u3000b", "l\u2028s", "n\u0085l",
-				".", "..", "...", ".", "..", "a..b", ".a", "a."}
+				".", "..", "...", ".", "..", "a..b", ".a", "a.",
+				// an escape and a multi-byte letter in one part (round 13: escapes decoded byte by byte)
+				"café/bar", "é~x", "~é", "日/本", "ü~0", "a/é", "naïve~1", "Ω~/ω", "é/", "/é", "𝔘~𝔘"}
 			leaf := pick(rng, []interface{}{1, "a", []interface{}{1, "a"}, map[string]interface{}{"z": 1}, nil, ""})
 			k1, k2, k3 := pick(rng, keys), pick(rng, keys), pick(rng, keys)
 			// the first part is an identifier that begins like a keyword about one time in two
